@@ -75,6 +75,11 @@ theorem C26_probes_ranked {α} (lt : α → α → Bool) (b : Nat) (d : List α)
 
 example : probesRanked (fun (x y : Nat) => decide (x < y)) 5 [10, 0, 20] 8 = [5, 7, 4, 1, 6, 3, 0, 2] := by decide
 
+/-- the repaired sort puts NaN distances last and keeps ties in index order: `none` plays the NaN. -/
+example : probesRanked (fun (x y : Option Nat) => match x, y with
+      | some a, some b => decide (a < b) | some _, none => true | none, _ => false)
+    0 [none, some 3, some 3, none, some 1] 6 = [0, 16, 2, 4, 1, 8] := by decide
+
 /-! ## (c) the hyperplane cache and bucket determinism -/
 
 /-- Every atomic step of the cache preserves "cached entry = gen key". -/
@@ -241,19 +246,12 @@ theorem C26_int8_zero_identical (F : FloatOps) (a : List Int) :
     euclidI8 F a a = F.sqrt64 (F.ofInt64 0) ∧ manhattanI8 F a a = F.ofInt64 0 :=
   ⟨euclidI8_self a, manhattanI8_self a⟩
 
-/-- The part of "zero on identical inputs" that fails: int8 cosine distance. -/
-def C26_int8_cosine_identical_statement : Prop :=
-  ∀ (F : FloatOps) (a : List Int), cosineI8 F a a = F.zero64
+/-- int8 cosine distance of an all-zero vector to itself is `0.0` (after
+    `fix: cosine_distance_int8 of two zero vectors is 0`), as for the f32 version. -/
+theorem C26_int8_cosine_zero_identical (F : FloatOps) (n : Nat) :
+    cosineI8 F (List.replicate n 0) (List.replicate n 0) = F.zero64 := cosineI8_zero_self n
 
-/-- `cosine_distance_int8(0…0, 0…0) = 1.0` (vector_ops.rs:607) — refuted on the exact-integer instance. -/
-theorem C26_int8_cosine_identical_refuted : ¬ C26_int8_cosine_identical_statement := by
-  intro h
-  have h1 := congrArg toyVal (h toyFloat [0, 0])
-  exact absurd h1 (by decide)
-
-/-- what holds instead: on an all-zero vector the result is the constant `1.0`. -/
-theorem C26_int8_cosine_zero_vector (F : FloatOps) (n : Nat) :
-    cosineI8 F (List.replicate n 0) (List.replicate n 0) = F.one64 := cosineI8_zero_self n
+example : toyVal (cosineI8 toyFloat [0, 0] [0, 0]) = 0 ∧ toyVal (cosineI8 toyFloat [0, 0] [1, 2]) = 1 := by decide
 
 /-! ## (b) quantisation round trip, in exact arithmetic -/
 
